@@ -271,14 +271,26 @@ class Recorder(object):
         return {"tid": self.tid, "pols": norm_pols(self.drv.abs_policies), "steps": self.steps}
 
 
+SHARD_BYTES = 6000000
 SHARD = 2500      # traces per TLC invocation (one JSON file each: large files made JsonDeserialize slow and fragile)
 
 
 def validate(traces, workers=None, name="traces"):
     """Run TraceEngine.tla over the traces. Returns (verdicts, drifts, TLCResult)."""
     V, Dr, total = [], [], None
-    for k in range(0, max(len(traces), 1), SHARD):
-        v, d, res = _validate(traces[k:k + SHARD], workers, "%s_%d" % (name, k // SHARD))
+    # shards by volume as well as by count: a trace of a long random history weighs tens of kilobytes
+    shards, cur, vol = [], [], 0
+    for t in traces:
+        n = len(json.dumps(t["steps"]))
+        if cur and (vol + n > SHARD_BYTES or len(cur) >= SHARD):
+            shards.append(cur)
+            cur, vol = [], 0
+        cur.append(t)
+        vol += n
+    if cur or not shards:
+        shards.append(cur)
+    for k, part in enumerate(shards):
+        v, d, res = _validate(part, workers, "%s_%d" % (name, k))
         V += v
         Dr += d
         if total is None:
